@@ -530,11 +530,23 @@ func main() {
 	if gen.Thorough() {
 		nF, nT = 3000, 400
 	}
+	if len(os.Args) > 1 && os.Args[1] == "d8reader" {
+		scenarioD8Reader()
+		return
+	}
 	fCases(rng, nF)
+	scenarioD8Reader()
 	for i := 0; i < nT; i++ {
 		topics := [][]string{{"t"}, {"t", "u"}, {"a", "b", "c"}}[rng.Intn(3)]
 		s := newScen(rng, topics, rng.Intn(2) == 0, []int{0, 10, 20}[rng.Intn(3)])
 		s.run(40 + rng.Intn(80))
 		s.emit()
+	}
+	nM := 12
+	if gen.Thorough() {
+		nM = 120
+	}
+	for i := 0; i < nM; i++ {
+		multiScenario(rng, 2+rng.Intn(2), rng.Intn(2) == 0, 120+rng.Intn(120))
 	}
 }
